@@ -92,7 +92,10 @@ def cases():
     B, S, L = gen.BOOL_KINDS, gen.SPIN_KINDS, gen.LABELLED_KINDS
     deg_opt = st.fixed_dictionaries({"deg": st.sampled_from([0, 0, 1, 2])})
     m2q_opt = st.fixed_dictionaries({"symmetric": st.booleans(), "array": st.booleans()})
-    cs_opt = st.fixed_dictionaries({"extra": st.booleans()})
+    # element type of the solution entries: python ints, floats, or numpy scalars (unsigned for the boolean form,
+    # signed for the spin form) - the container stays a dict / list / tuple
+    cs_opt = st.fixed_dictionaries({"extra": st.booleans(),
+                                    "etype": gen.pick(("int", 3), ("np_small", 1), ("np_int64", 1), ("float", 1))})
     return st.one_of(
         _case("pubo_to_puso", _source(["dict_bool", "dict_bool", "dict_bool"] + B)),
         _case("puso_to_pubo", _source(["dict_spin", "dict_spin", "dict_spin"] + S)),
@@ -389,6 +392,19 @@ def _convert_solution(qv, S, truth, kind, opt, ctx, classes, rec):
         classes.add("solution_with_ancilla_entry")
     scale = _scale(truth, enum)
     domain = (1, -1) if spin else (0, 1)
+    etype = opt.get("etype") or "int"
+    if etype != "int":
+        classes.add("solution_entries=" + etype)
+
+    def entries(vals, form_spin):
+        if etype == "float":
+            return [float(v) for v in vals]
+        if etype == "np_int64":
+            return [np.int64(v) for v in vals]
+        if etype == "np_small":
+            return [(np.int8(v) if form_spin else np.uint8(v)) for v in vals]
+        return vals
+
     for r in range(1 << n):
         bits = [(r >> i) & 1 for i in range(n)]
         for form_spin in (False, True):
@@ -396,6 +412,7 @@ def _convert_solution(qv, S, truth, kind, opt, ctx, classes, rec):
             if extra:
                 # value of an ancilla of a reduced form; ignored by convert_solution (documented)
                 vals = vals + [(-1 if form_spin else 0) if r % 2 else 1]
+            vals = entries(vals, form_spin)
             for cont in ("dict", "list", "tuple"):
                 if cont == "dict":
                     sol = {i: v for i, v in enumerate(vals)}
@@ -421,7 +438,7 @@ def _convert_solution(qv, S, truth, kind, opt, ctx, classes, rec):
                     if cs2 != cs:
                         raise Violation("convert_solution_noflag/%s_form_%s" % ("spin" if form_spin else "boolean", cont),
                                         "without the flag (form unambiguous) -> %r; %s" % (cs2, where))
-                val = ref.ref_value(truth, cs)
+                val = ref.ref_value(truth, {k_: int(v_) for k_, v_ in cs.items()})
                 tol = 0 if ctx.exact else 1e-9 * scale
                 if abs(val - tE[r]) > tol:
                     raise Violation("convert_solution_value/%s_form_%s" % ("spin" if form_spin else "boolean", cont),
